@@ -198,10 +198,14 @@ impl Adversary for AckForger {
                     let mut groups = Vec::new();
                     for _ in 0..n {
                         let (base, _) = known[self.rng.below(known.len() as u64) as usize];
-                        let mut bits = 1u32;
-                        let mut parity = self.seen.nonces.iter().find(|(id, _)| *id == base).map(|x| x.1);
+                        // the group need not claim its own base frame (no genuine receiver builds
+                        // such a group, a forger may)
+                        let claim_base = self.rng.chance(0.6);
+                        let mut bits = claim_base as u32;
+                        let mut parity = if claim_base { self.seen.nonces.iter().find(|(id, _)| *id == base).map(|x| x.1) } else { Some(false) };
+                        let p_bit = if claim_base { 0.2 } else { 0.4 };
                         for i in 1..32u32 {
-                            if self.rng.chance(0.2) {
+                            if self.rng.chance(p_bit) {
                                 if let (Some(p), Some((_, n))) = (parity, self.seen.nonces.iter().find(|(id, _)| *id == base.wrapping_add(i))) {
                                     bits |= 1 << i;
                                     parity = Some(p ^ *n);
@@ -276,6 +280,20 @@ impl Adversary for AckForger {
 }
 
 /// Runs baseline (twin operations removed) and twin, comparing the sender's behaviour.
+/// The twin execution may stop early (at its violation) while the baseline ran to the end: the
+/// replay file must also carry the fates the baseline drew for the datagrams the twin never sent.
+/// Both executions key fates by (link, ordinal), so the union is well defined.
+fn merge_baseline_fates(v: &mut RunVerdict, b: &RunVerdict) {
+    if let (Some(m), Some(bm)) = (v.materialised.as_mut(), b.materialised.as_ref()) {
+        for (link, fates) in bm.fates.iter() {
+            let dst = m.fates.entry(link.clone()).or_default();
+            for (ord, f) in fates.iter() {
+                dst.entry(*ord).or_insert_with(|| f.clone());
+            }
+        }
+    }
+}
+
 pub fn twin_run(def: &CheckDef, fam: &Family, plan: &Plan, materialise: bool) -> Result<RunVerdict, String> {
     let sender = plan.param("twin_sender", 0.0) as usize;
     let baseline: Baseline = Rc::new(RefCell::new(Vec::new()));
@@ -284,7 +302,7 @@ pub fn twin_run(def: &CheckDef, fam: &Family, plan: &Plan, materialise: bool) ->
     base_plan.adversary = String::new();
     // the baseline runs without adversary; fates come from the same keyed stream
     let base_fam = Family { adversary: None, custom: None, ..fam.clone() };
-    let b = run_plan_with(def, &base_fam, &base_plan, false, vec![Box::new(TwinOracle::recorder(def.property, sender, baseline.clone()))])?;
+    let b = run_plan_with(def, &base_fam, &base_plan, materialise, vec![Box::new(TwinOracle::recorder(def.property, sender, baseline.clone()))])?;
     if b.violation.is_some() || b.aborted_by_panic.is_some() {
         return Ok(b);
     }
@@ -293,6 +311,7 @@ pub fn twin_run(def: &CheckDef, fam: &Family, plan: &Plan, materialise: bool) ->
     let mut v = run_plan_with(def, &twin_fam, plan, materialise, oracles)?;
     // digest covers both executions
     v.digest ^= b.digest.rotate_left(17);
+    merge_baseline_fates(&mut v, &b);
     Ok(v)
 }
 
@@ -408,7 +427,7 @@ pub fn twin_events_run(def: &CheckDef, fam: &Family, plan: &Plan, materialise: b
     base_plan.timeline.retain(|t| !matches!(t.op, Op::Inject { twin: true, .. }));
     base_plan.adversary = String::new();
     let base_fam = Family { adversary: None, custom: None, ..fam.clone() };
-    let b = run_plan_with(def, &base_fam, &base_plan, false, vec![Box::new(EventTwin::new(def.property, baseline.clone(), false))])?;
+    let b = run_plan_with(def, &base_fam, &base_plan, materialise, vec![Box::new(EventTwin::new(def.property, baseline.clone(), false))])?;
     if b.violation.is_some() || b.aborted_by_panic.is_some() {
         return Ok(b);
     }
@@ -416,5 +435,6 @@ pub fn twin_events_run(def: &CheckDef, fam: &Family, plan: &Plan, materialise: b
     let oracles: Vec<Box<dyn Oracle>> = vec![Box::new(EventTwin::new(def.property, baseline.clone(), true)), Box::new(StateCoverage::new())];
     let mut v = run_plan_with(def, &twin_fam, plan, materialise, oracles)?;
     v.digest ^= b.digest.rotate_left(17);
+    merge_baseline_fates(&mut v, &b);
     Ok(v)
 }
